@@ -53,6 +53,9 @@ ASSUMPTIONS = ["equality is claimed at points where both trees are defined (Lean
                "the sympy cross-check inside the driver is an oracle parameter of the model (a deterministic function of parent and candidate); scripted runs replace it by a table",
                "scripted driver runs use rewriter results `one`/`many`/`none`/raise with nadded consistent with the lists; a one-element candidate list in phase 2 "
                "(never returned by update_sums, which unwraps it) is outside the modelled domain and not generated"]
+# tables whose committed version may stand in as a hand-written model when the translator cannot read the source;
+# value = the correspondence that then ties it to the code (common.prove / common.decide)
+FALLBACK = {'Rewrite': 'the update_tree / update_sums models vs the real functions on every call the real driver makes', 'Shape': 'basis tables: labels_to_shape / check_tree correspondence on every tree used'}
 MODELLED = ["generator.py:update_tree", "generator.py:update_sums", "generator.py:find_additional_trees"]
 
 POW_SET = ("square", "cube", "sqrt_abs", "inv")
